@@ -22,6 +22,8 @@ var c17Bases = []string{"@", "a", "b", "a.b", "b[0]", "c", "[a, b]", "*", "a[*]"
 var c17Filters = []string{"a", "@", "!a", "a == `1`", "a != `null`", "b[0]", "a && b", "type(@) == 'object'", "a.a", "`true`", "`false`"}
 
 var c17DocsText = []string{
+	`{"a":[{"a":[1,2],"b":{"a":1}},5,{"a":3,"b":[{"a":4}]},"s",[7],{"a":{"k":1}},true],"b":[{"a":{"k":1,"j":2}},5,[{"a":1}],{"a":[1,[2]]}],"c":{"a":{"a":1},"b":2,"c":"x"}}`,
+	`[{"a":{"a":[1],"b":2},"b":[1]},7,"x",[{"a":1}],{"a":[{"a":1},2,{"b":3}]},false]`,
 	`{"a":[{"a":1,"b":[1,2]},{"a":null,"b":null},null,{"b":{"a":2}},[{"a":3}],"s",{}],"b":[{"a":{"a":1,"b":2}},{"a":[1,null,{"a":5}]}],"c":{"a":{"a":1},"b":null,"c":[{"a":1}]}}`,
 	`{"a":{"a":{"a":1,"b":null},"b":[{"a":1},{"a":2,"b":3},null]},"b":[[{"a":1},{"a":null}],[],[null],{"a":7}],"c":null}`,
 	`[{"a":[1,2],"b":{"a":1}},{"a":[],"b":null},{"a":null},null,[[{"a":1}]],{"a":{"a":[{"a":9}]}}]`,
